@@ -38,6 +38,7 @@ PROFILES = {
     "agg3": prof("MC_Focus", "MovesAgg", 3),
     "win2": prof("MC_Focus", "MovesWin", 2),
     "win3": prof("MC_Focus", "MovesWin", 3, srcs=[1, 6]),
+    "ty2": prof("MC_Focus", "MovesTy", 2, srcs=[1, 8, 4]),
     "err2": prof("MC_Focus", "MovesErr", 2, srcs=[1, 4]),
     "err3": prof("MC_Focus", "MovesErr", 3, srcs=[1]),
     "wins3": prof("MC_Focus", "MovesWinS", 3, srcs=[1, 6, 7]),
@@ -92,6 +93,12 @@ CHECKS = {
         level="model_checking",
         clauses=GEN_CLAUSES_SPEC | {"errclass", "getname"},
         phases=dict(quick=[dict(profile="ref3")], thorough=[dict(profile="ref3"), dict(profile="ref4")]),
+    ),
+    "C12": dict(
+        level="model_checking",
+        clauses={"dtype-static", "dtype-export", "dtype-roundtrip"},
+        phases=dict(quick=[dict(profile="ty2"), dict(profile="union2")],
+                    thorough=[dict(profile="ty2"), dict(profile="join2"), dict(profile="union3"), dict(profile="agg3")]),
     ),
     "C14": dict(
         level="model_checking",
